@@ -80,8 +80,10 @@ pub fn check(ctx: &Ctx, genome: &[u16]) -> CaseReport {
         let cubic = cl.iter().any(|n| f.glyph(n).map(|x| x.kind == OutlineKind::Cubic).unwrap_or(false));
         let mut locs: Vec<(Vec<f64>, bool)> = vec![];
         for (si, s) in f.sources.iter().enumerate() {
-            let everywhere = cl.iter().all(|n| f.glyph(n).map(|x| x.sources.contains_key(&si)).unwrap_or(false));
-            if everywhere || uniform { locs.push((s.norm.clone(), si == 0)); }
+            // every location where the glyph or any transitive component has a source: a glyph that is
+            // decomposed or flattened has to carry those locations to keep drawing what the composite draws
+            let somewhere = cl.iter().any(|n| f.glyph(n).map(|x| x.sources.contains_key(&si)).unwrap_or(false));
+            if somewhere || uniform { locs.push((s.norm.clone(), si == 0)); }
         }
         if uniform { for x in &extra { locs.push((x.clone(), false)); } }
         let gids: Vec<Option<u16>> = gid_maps.iter().map(|m| m.get(&gl.name).copied()).collect();
